@@ -509,7 +509,10 @@ String Xml::Element::toString() const
     result.append(' ');
     result.append(i.key());
     result.append("=\"");
-    result.append(Xml::Private::escapeString(*i));
+    String value = Xml::Private::escapeString(*i);
+    value.replace("\r", "&#13;"); // a raw line break ends the attribute in the parser
+    value.replace("\n", "&#10;");
+    result.append(value);
     result.append('"');
   }
   if(content.isEmpty())
